@@ -39,7 +39,7 @@ ASSUMPTIONS = [
 @st.composite
 def nc_case(draw):
     c = draw(gen.normalised_counts_case(min_patches=2, max_patches=7, exact=True))
-    return {"kind": draw(st.sampled_from(["PatchedCounts", "PatchedSumWeights", "NormalisedCounts"])), "c": c, "prior": draw(st.sampled_from([None, None, "get_array", "sample"]))}
+    return {"kind": draw(st.sampled_from(["PatchedCounts", "PatchedSumWeights", "NormalisedCounts"])), "c": c, "prior": draw(st.sampled_from([None, None, "get_array", "sample"])), "via": draw(st.sampled_from(gen.PROVENANCE))}
 
 
 def _distinct_rows(counts):
@@ -69,6 +69,11 @@ def run_nc(case):
     else:
         obj = gen.build_normalised(c)
         ref = lambda k: osx.normalised_total(c, k)  # noqa
+    if case.get("via"):
+        ok, obj = ck.call(gen.via, f"via:{case['via']}:{kind}", obj, case["via"])
+        if not ok:
+            return ck.results()
+        ck.cls(f"via:{case['via']}")
     with np.errstate(all="ignore"):
         if case.get("prior") == "get_array":
             ck.call(obj.get_array, f"get_array:{kind}")
@@ -96,6 +101,7 @@ def run_nc(case):
 def cf_case(draw):
     c = draw(gen.corrfunc_case(min_patches=2, max_patches=7, exact=True, max_bins=4))
     c["prior"] = draw(st.sampled_from([None, None, "sample", "get_array"]))  # earlier read-only use of the same object
+    c["via"] = draw(st.sampled_from(gen.PROVENANCE))
     return c
 
 
@@ -138,6 +144,11 @@ def run_cf(case):
     if name == "LS-without-dr":
         ck.cls("ls_without_dr(not judged)")
         return ck.results()
+    if c.get("via"):
+        ok, cf = ck.call(gen.via, f"via:{c['via']}:CorrFunc", cf, c["via"])
+        if not ok:
+            return ck.results()
+        ck.cls(f"via:{c['via']}")
     with np.errstate(all="ignore"):
         prior = c.get("prior")
         if prior == "sample":
